@@ -6,7 +6,7 @@ SPEC = {
     "driver": "drv_c01b",
     "harness": "c01b",
     "theorems": ["C01_json_roundtrip", "C01_json_api_roundtrip", "C01_json_map_any_iteration_order",
-                 "C01_json_key_order_irrelevant_partial", "C01_json_map_member_order_irrelevant_partial"],
+                 "C01_json_key_order_irrelevant", "C01_json_key_order_by_lookup", "C01_json_map_member_order"],
     "trusted_base": [
         "hand-written model Hive/Model/SerixJson.lean (+SerixJsonText) of serializer/serix/map_encode.go and map_decode.go, tied by "
         "differential execution over random schemas realised with reflect (harness/c01b)",
